@@ -122,12 +122,13 @@ class TimedDecider:
     think    : client think time added before every call
     """
 
-    def __init__(self, arrivals, close_at, timeout, think):
+    def __init__(self, arrivals, close_at, timeout, think, wait_full=False):
         self.arr = arrivals
         self.ai = 0
         self.close_at = close_at
         self.timeout = timeout
         self.think = think
+        self.wait_full = wait_full  # serial semantics: block until `want` bytes or the timeout
         self.now = 0.0
         self.avail_end = 0
 
@@ -139,14 +140,21 @@ class TimedDecider:
         while ai < len(arr) and arr[ai][0] <= now:
             self.avail_end = arr[ai][1]
             ai += 1
-        if self.avail_end <= pos:
-            # nothing queued: block until next arrival, FIN, or timeout
-            nxt = arr[ai][0] if ai < len(arr) else self.close_at
-            deadline = None if self.timeout is None else now + self.timeout
+        deadline = None if self.timeout is None else now + self.timeout
+        need = pos + (want if self.wait_full and want > 0 else 1)
+        while self.avail_end < need:
+            # not enough queued: block until next arrival, FIN, or timeout
+            if ai >= len(arr):
+                if self.avail_end <= pos:
+                    self.now = max(now, self.close_at) if deadline is None else min(max(now, self.close_at), deadline)
+                break
+            nxt = arr[ai][0]
             if deadline is not None and nxt > deadline:
                 self.now = deadline
                 self.ai = ai
-                return ("t",)
+                if self.avail_end <= pos:
+                    return ("t",)
+                break
             self.now = now = nxt
             while ai < len(arr) and arr[ai][0] <= now:
                 self.avail_end = arr[ai][1]
@@ -155,7 +163,7 @@ class TimedDecider:
         avail = self.avail_end - pos
         if avail <= 0:
             return ("d", 0)  # FIN reached: link reports EOF
-        return ("d", avail if avail < want else want)
+        return ("d", avail if avail < want or want <= 0 else want)
 
 
 # ---------------------------------------------------------------------------
@@ -304,7 +312,8 @@ class SimSerial:
 
     def readline(self):
         link = self._link
-        d = link._step("readline", -1)
+        j0 = link.wire.find(b"\n", link.pos, link.end)
+        d = link._step("readline", (j0 + 1 - link.pos) if j0 >= 0 else max(1, link.end - link.pos))
         kind = d[0]
         if kind == "eof":
             return b""
@@ -389,6 +398,7 @@ def timed_arrivals(rng, item_lengths, cfg):
     mss = cfg["mss"]
     lat = cfg["latency"]
     jit = cfg["jitter"]
+    byte_time = cfg.get("byte_time", 0.0)  # serial-like pacing: seconds per byte on the line
     t = 0.0
     last = 0.0
     off = 0
@@ -400,6 +410,7 @@ def timed_arrivals(rng, item_lengths, cfg):
             k = min(mss, ln - sent)
             sent += k
             off += k
+            t += k * byte_time
             at = t + lat + (rng.random() * jit if jit else 0.0)
             if at < last:
                 at = last  # TCP: in order
